@@ -341,6 +341,45 @@ def record(rng):
     return rec
 
 
+def dtype_cases():
+    """a density estimate is a function of the values of the events: the
+    same values held as 64-bit integers, 32-bit floats or 64-bit floats
+    give the same estimate (every estimator, with and without positions)"""
+    import dclab
+    out, n = [], 0
+    rs = np.random.RandomState(12)
+    frame = np.sort(rs.randint(100, 400, 60)).astype(np.int64)
+    defo = rs.uniform(0.01, 0.2, 60)
+    px = np.array([150, 220, 310], dtype=np.int64)
+    py = np.array([0.05, 0.1, 0.15])
+    with warnings.catch_warnings():
+        warnings.simplefilter("ignore")
+        ref = dclab.new_dataset({"frame": frame.astype(np.float64),
+                                 "deform": defo})
+        for name, dt in (("int64", np.int64), ("float32", np.float32)):
+            alt = dclab.new_dataset({"frame": frame.astype(dt),
+                                     "deform": defo})
+            for kt in KDES:
+                for pos in (None, (px.astype(dt), py)):
+                    kw = dict(xax="frame", yax="deform", kde_type=kt)
+                    posr = None if pos is None else (
+                        px.astype(np.float64), py)
+                    a = call(lambda: ref.get_kde_scatter(positions=posr,
+                                                         **kw))
+                    b = call(lambda: alt.get_kde_scatter(positions=pos,
+                                                         **kw))
+                    n += 1
+                    rt = 1e-5 if name == "float32" else 1e-9
+                    if a[0] != b[0] or (a[0] == "ok" and not np.allclose(
+                            a[1][0], np.asarray(b[1][0], dtype=float),
+                            rtol=rt, atol=0, equal_nan=True)):
+                        out.append(("density estimate %s depends on the "
+                                    "data type of the x data (%s)" % (
+                                        kt, name), "%s vs %s" % (
+                                            str(a[1])[:80], str(b[1])[:80])))
+    return n, out
+
+
 def main(tier, seed, replay=None):
     import_dclab()
     ev = evidence.Evidence(PID, tier, seed)
@@ -393,4 +432,9 @@ def main(tier, seed, replay=None):
         rep.violation("quantile level: %s (%s kde, %s x scale)" % (
             why if why != "raised" else "raises " + str(r.get("exc")),
             r["kde"], r["xscale"]), str(r), r, size=1000)
+    nd, viols = dtype_cases()
+    ev.traces += nd
+    ev.extra["dtype_cases"] = nd
+    for sig, detail in viols:
+        rep.violation(sig, detail, {}, size=60)
     return rep.finish()
